@@ -8,7 +8,7 @@ from typing import Dict, List, Optional, Set, Tuple
 
 from ..adi import BOOL_UNIVERSE, FALSE, TRUE, Interp, UnarySummary, Universe
 from ..model import AnchorError, Program, dotted, last_attr, norm, parent, walk_no_nested
-from ..report import Check
+from ..report import Check, guard
 from .common import INTERNAL_VALUE_KINDS, SINGLETONS, calls_in, guards_of, local_assignments, need_locals, returns_of, value_universe
 
 PSEUDO = {"Never": "MultiValuedValue"}
@@ -440,7 +440,7 @@ def r04_ghi(prog: Program, chk: Check) -> None:
 
 
 def run(prog: Program, chk: Check) -> None:
-    r04_ghi(prog, chk)
-    r04_abc(prog, chk)
-    r04_d(prog, chk)
-    r04_ef(prog, chk)
+    guard(chk, r04_ghi, prog, chk)
+    guard(chk, r04_abc, prog, chk)
+    guard(chk, r04_d, prog, chk)
+    guard(chk, r04_ef, prog, chk)
